@@ -1,9 +1,11 @@
 (* K13 — vectorizers/transformers/info_weight.py: column_kl_divergence_exact_prior (and the approximate
-   prior variant), information_weight (row-mass baseline, conversion to CSC + sort_indices, one KL per column),
+   prior variant), information_weight (row-mass baseline, conversion to CSC + canonical format = sort_indices and
+   sum_duplicates on a copy when has_canonical_format is False, one KL per column),
    InformationWeightTransformer.fit post-processing (mean-normalise, clamp at 0, power) and transform (X @ diag w).
    Executable definitions only, over the abstract carrier [Ops T] of K12 (R for the theorems, PrimFloat for the
-   correspondence run).  A column is its stored entries (row index, value) in storage order: unsorted indices and
-   explicit zeros are representable; sort_col is what csc.sort_indices() does to it. *)
+   correspondence run).  A column is its stored entries (row index, value) in storage order: unsorted indices,
+   explicit zeros and duplicate row indices are representable; sort_col is what csc.sort_indices() does to it,
+   sum_dups what scipy's csr_sum_duplicates does. *)
 From Coq Require Import ZArith List Bool.
 From VZ Require Import Model.K12_Dist.
 Import ListNotations.
@@ -92,10 +94,39 @@ Section InfoWeight.
     let total := sum_list T O counts in
     map (fun c => div c total) counts.
 
+  (* scipy csr_sum_duplicates on one column (called after sort_indices):
+       jj = row_start; while jj < row_end: j = Aj[jj]; x = Ax[jj]; jj++;
+         while jj < row_end and Aj[jj] == j: x += Ax[jj]; jj++
+         Aj[nnz] = j; Ax[nnz] = x; nnz++                       -- adjacent equal indices are added up, left to right *)
+  Fixpoint sum_dups_from (j : Z) (x : T) (l : list (Z * T)) : list (Z * T) :=
+    match l with
+    | [] => [(j, x)]
+    | e :: t => if (fst e =? j)%Z then sum_dups_from j (add x (snd e)) t
+                else (j, x) :: sum_dups_from (fst e) (snd e) t
+    end.
+  Definition sum_dups (l : list (Z * T)) : list (Z * T) :=
+    match l with [] => [] | e :: t => sum_dups_from (fst e) (snd e) t end.
+
+  (* csc.has_canonical_format: within every column the indices are strictly increasing (sorted, no duplicates) *)
+  Fixpoint strictly_incr (l : list Z) : bool :=
+    match l with
+    | x :: ((y :: _) as t) => (x <? y)%Z && strictly_incr t
+    | _ => true
+    end.
+  Definition has_canonical_format (cols : list (list (Z * T))) : bool :=
+    forallb (fun c => strictly_incr (map fst c)) cols.
+
+  (* if not csc_data.has_canonical_format: csc_data = csc_data.copy(); csc_data.sum_duplicates()
+     (sum_duplicates = sort_indices, then csr_sum_duplicates; the flag is one flag for the whole matrix) *)
+  Definition canon_col (c : list (Z * T)) : list (Z * T) := sum_dups (sort_col c).
+  Definition canonicalise (cols : list (list (Z * T))) : list (list (Z * T)) :=
+    if has_canonical_format cols then cols else map canon_col cols.
+
+  (* the baseline is computed from the caller's matrix (data.sum(axis=1)), the kernels run on the canonical copy *)
   Definition information_weight (approx : bool) (n_rows : nat) (cols : list (list (Z * T))) (s : T) : list (option T) :=
     let b := baseline n_rows cols in
-    map (fun c => let c' := sort_col c in
-                  (if approx then column_kl_approx else column_kl_exact) (map fst c') (map snd c') b s) cols.
+    map (fun c' => (if approx then column_kl_approx else column_kl_exact) (map fst c') (map snd c') b s)
+        (canonicalise cols).
 
   (* InformationWeightTransformer.fit (y = None): w /= mean(w); w = maximum(w, 0); w = power(w, weight_power) *)
   Definition finish_weights (pw : T -> T -> T) (w : list T) (power : T) : list T :=
